@@ -20,6 +20,9 @@ import urllib.parse
 
 
 # ---------------------------------------------------------------------------------------------- wsgi.input
+from vf.engine import unmodelled  # noqa: E402
+
+@unmodelled
 class PieceStream:
     """read(n) returns the next <= n bytes of the current piece and never crosses a piece end (a short read, legal
     for wsgi.input); b'' after the last piece.  Records every n asked for.  A reader that asks more than 200 times
